@@ -18,7 +18,7 @@ pub enum WDesc {
 }
 #[derive(Clone, Debug, PartialEq)]
 pub enum Lits {
-    /// (bytes, size_format 0|1|2|3; 0 and 2 are the two encodings of the 5-bit form)
+    /// (bytes, size_format 0|1|3: 5-, 12-, 20-bit size)
     Raw(Vec<u8>, u8),
     /// (byte, count, size_format)
     Rle(u8, u32, u8),
@@ -98,11 +98,12 @@ pub fn lit_bytes(l: &Lits) -> Vec<u8> {
 
 fn raw_rle_header(ty: u8, n: u32, size_format: u8) -> Result<Vec<u8>, String> {
     match size_format {
-        0 | 2 => {
+        0 => {
+            // Size_Format uses one bit here (bit 2 = 0); bit 3 is already the lowest bit of the size
             if n >= 32 {
                 return Err(format!("{n} literals do not fit the 5-bit size"));
             }
-            Ok(vec![ty | (size_format << 2) | ((n as u8) << 3)])
+            Ok(vec![ty | ((n as u8) << 3)])
         }
         1 => {
             if n >= 4096 {
